@@ -105,6 +105,28 @@ func VH_C07_seq_T() { verifC07Seq(6, 3, false) }
 
 func VH_C07_seq_resize_T() { verifC07Seq(5, 3, true) }
 
+// the history is made smaller (a reload with a smaller replay_history) right after the cache has
+// rotated: the handshakes that are still within the new, smaller window are remembered
+func VH_C07_shrink() {
+	capOld := 2 + verifChoice("old-capacity", 2) // 2..3
+	capNew := 1 + verifChoice("new-capacity", capOld-1)
+	c := NewReplayCache(capOld)
+	n := capOld + 1 + verifChoice("more", 2) // at least one rotation has happened
+	salts := make([][]byte, n)
+	for i := range salts {
+		salts[i] = []byte{byte(i + 1), 2, 3, 4}
+		verifAssert("C07.shrink.new-handshake-accepted", c.Add("a", salts[i]))
+	}
+	verifAssert("C07.shrink.resize-ok", c.Resize(capNew) == nil)
+	j := verifChoice("replayed", n)
+	ok := c.Add("a", salts[j])
+	if n-j <= capNew {
+		// salts[j] is among the most recent capNew handshakes checked
+		verifAssert("C07.shrink.recent-handshake-still-refused", !ok)
+		verifReach("C07.shrink.recent", true)
+	}
+}
+
 // disabled cache: everything is new
 func VH_C07_disabled() {
 	var nilCache *ReplayCache
@@ -200,7 +222,7 @@ func VH_C07_concurrent() {
 // in between — still exactly one copy is served
 func VH_C07_concurrent_rotation() {
 	verifSched(1)
-	for rep := 0; rep < verifRepeat(30000); rep++ {
+	for rep := 0; rep < verifRepeat(150000); rep++ {
 		c := NewReplayCache(1 + verifChoice("cap", 2))
 		x, y := []byte{1, 2, 3, 4}, []byte{5, 6, 7, 8}
 		k := 2
